@@ -151,6 +151,15 @@ impl Poly {
     }
 }
 
+static THOROUGH: std::sync::atomic::AtomicBool = std::sync::atomic::AtomicBool::new(false);
+fn thorough() -> bool {
+    THOROUGH.load(std::sync::atomic::Ordering::Relaxed)
+}
+/// largest dynamic input length: 6 in the quick tier, 12 in the thorough tier
+fn dyn_max() -> usize {
+    if thorough() { 12 } else { 6 }
+}
+
 fn point(n: usize, which: usize) -> Vec<i64> {
     let base: [[i64; 12]; 2] = [[2, -1, 3, 1, -2, 2, 1, -3, 2, -1, 1, 3], [-1, 2, 1, -2, 3, -1, 2, 1, -1, 3, -2, 1]];
     base[which][..n].to_vec()
@@ -320,7 +329,7 @@ macro_rules! phess_static {
 }
 
 fn dynamic(ctx: &mut Ctx) {
-    for n in 0..=6usize {
+    for n in 0..=dyn_max() {
         for which in 0..2 {
             let p = Poly::new(n, which + 2, 3);
             let x = point(n, which);
@@ -370,7 +379,7 @@ fn dynamic(ctx: &mut Ctx) {
                 ctx.fail("hessian", &shape, "constant function: wrong shapes or non-zero entries".into());
             }
         }
-        for m in 1..=6usize {
+        for m in 1..=(if thorough() { 8 } else { 6 }) {
             let polys: Vec<Poly> = (0..m).map(|r| Poly::new(n, r + 3, 3)).collect();
             let x = point(n, (m + n) % 2);
             let polys: Vec<Poly> = polys.into_iter().enumerate().map(|(r, p)| if r % 2 == 1 { p.over(&x) } else { p }).collect();
@@ -528,7 +537,7 @@ fn scalars(ctx: &mut Ctx) {
         }
     }
     // third_partial_derivative_vec: all index triples, n <= 5
-    for n in 1..=5usize {
+    for n in 1..=(if thorough() { 7usize } else { 5 }) {
         let p = Poly::new(n, n + 10, 3);
         let pt = point(n, n % 2);
         let p = if n % 2 == 0 { p.over(&pt) } else { p };
@@ -995,6 +1004,7 @@ fn run_all(st: &mut Stats) {
 fn main() {
     quiet_panics();
     let cli = cli();
+    THOROUGH.store(matches!(cli.mode, Mode::Thorough), std::sync::atomic::Ordering::Relaxed);
     let start = Instant::now();
     let mut stats = Stats::default();
     if let Err(m) = guarded(|| run_all(&mut stats)) {
@@ -1019,7 +1029,7 @@ fn main() {
         mode: cli.mode,
         seed: cli.seed,
         start,
-        rule: "the twenty public drivers x input lengths n = 0..6 and output lengths m = 1..6 (static where the type system allows: gradient/hessian n = 1..6, jacobian all (m,n) in 1..6 x 1..6, partial_hessian (m,n) <= 4 and (6,1),(6,6),(1,6); dynamic for all lengths incl. 0) x two integer points x asymmetric integer polynomials containing every monomial of degree <= 3 with pairwise distinct coefficients (so every partial up to order 3 is non-zero and no two are equal) and, for every second function, that polynomial divided by a linear form equal to 2 at the point (quotient rules; all values stay small dyadic rationals); all n^3 index triples of third_partial_derivative_vec for n <= 5; try_ variants with unit-struct, String and integer errors; constant / partially constant functions (absent parts); nested use T = Dual64 (gradient, first/second/third_derivative, second_partial_derivative: the eps parts carry one more derivative order); non-polynomial integrands against reference Taylor coefficients; squares through powi(2) / powf(2) / &q * &q; results with hand-built presence patterns (all 4 of Dual2Vec, all 8 of HyperDualVec); closures written with nalgebra's vector API (norm, norm_squared, normalize, dot) and with the iterator adaptors sum() / product() by reference and by value; the 22 elementary functions called through nalgebra's ComplexField path inside gradient / hessian closures (static and dynamic); a polynomial times t.recip() * t (the constant one, through the chain rule) under the nested scalar drivers; polar coordinates (sqrt, atan2 in both branches and all quadrants) through gradient, hessian, jacobian, partial_hessian and second_partial_derivative. Non-trivial = a derivative entry whose exact value is neither 0 nor 1.".into(),
+        rule: format!("{}the twenty public drivers x input lengths n = 0..6 and output lengths m = 1..6", if thorough() { "THOROUGH TIER: dynamic input lengths 0..12 (gradient, hessian, jacobian with m = 1..8), all n^3 index triples of third_partial_derivative_vec for n <= 7; otherwise as the quick tier: " } else { "" }) + " (static where the type system allows: gradient/hessian n = 1..6, jacobian all (m,n) in 1..6 x 1..6, partial_hessian (m,n) <= 4 and (6,1),(6,6),(1,6); dynamic for all lengths incl. 0) x two integer points x asymmetric integer polynomials containing every monomial of degree <= 3 with pairwise distinct coefficients (so every partial up to order 3 is non-zero and no two are equal) and, for every second function, that polynomial divided by a linear form equal to 2 at the point (quotient rules; all values stay small dyadic rationals); all n^3 index triples of third_partial_derivative_vec for n <= 5; try_ variants with unit-struct, String and integer errors; constant / partially constant functions (absent parts); nested use T = Dual64 (gradient, first/second/third_derivative, second_partial_derivative: the eps parts carry one more derivative order); non-polynomial integrands against reference Taylor coefficients; squares through powi(2) / powf(2) / &q * &q; results with hand-built presence patterns (all 4 of Dual2Vec, all 8 of HyperDualVec); closures written with nalgebra's vector API (norm, norm_squared, normalize, dot) and with the iterator adaptors sum() / product() by reference and by value; the 22 elementary functions called through nalgebra's ComplexField path inside gradient / hessian closures (static and dynamic); a polynomial times t.recip() * t (the constant one, through the chain rule) under the nested scalar drivers; polar coordinates (sqrt, atan2 in both branches and all quadrants) through gradient, hessian, jacobian, partial_hessian and second_partial_derivative. Non-trivial = a derivative entry whose exact value is neither 0 nor 1.".into(),
         assumptions: vec!["expected values by symbolic differentiation of the coefficient tables in integer arithmetic (Leibniz rule for the quotient by the linear form); all values are small integers or dyadic rationals, so equality is exact".into()],
         extra: json!({"oracle": "exact integer partial derivatives; Err identity; Ok results bit-equal to the infallible variants"}),
         exhaustive: true,
